@@ -30,6 +30,8 @@ mod c01 {
         verifies: Cell<u8>,
         tbs_as_expected: Cell<bool>,
         signature_as_given: Cell<bool>,
+        /// decision-only harnesses do not look at the signed bytes
+        skip_tbs: bool,
     }
 
     struct MockKey<'a> {
@@ -128,7 +130,9 @@ mod c01 {
         fn verify(&self, data: &[u8], signature: CryptoSensitiveRef<PKC_SIGNATURE_LEN>) -> Result<bool, Error> {
             let o = self.owner;
             o.verifies.set(o.verifies.get().saturating_add(1));
-            o.tbs_as_expected.set(tbs_is(data, &o.expect));
+            if !o.skip_tbs {
+                o.tbs_as_expected.set(tbs_is(data, &o.expect));
+            }
             o.signature_as_given.set(*signature.access() == o.expect.signature);
             match o.verdict {
                 Some(b) => Ok(b),
@@ -156,15 +160,20 @@ mod c01 {
     /// writer then costs nothing; what the structure contains is the subject of the harness below, which does not
     /// close), the call is `Ok` exactly when the NOC yields a public key, the key imports and the primitive says
     /// "verified" - for every outcome of the three.
-    // TIER: quick!  (the decision 'a signature that does not verify is refused' belongs in every run, whatever it costs)
+    // TIER: thorough  (600-860 s of CBMC in the byte-wise TLV writer: the registered quick command must stay below 900 s, so the
+    //                 decision 'a signature that does not verify is refused' is checked in the thorough tier only)
     // KIND: complete (decision over every outcome of pubkey / import / verify; certificate and key bytes fixed, they do not influence the decision)
     #[kani::proof]
     #[kani::unwind(67)]
     #[kani::stub(crate::cert::CertRef::pubkey, crate::cert::verif_kani::c19::pf_pubkey)]
     fn c01_validate_peer_tbs_signature_decision() {
+        tbs_decision(kani::any());
+    }
+
+    fn tbs_decision(with_icac: bool) {
         let noc = [0x11u8; CERT_LEN];
         let icac = [0x22u8; CERT_LEN];
-        let with_icac: bool = kani::any();
+        // (with / without ICAC: argument)
         let peer_key = [0x33u8; PKC_CANON_PUBLIC_KEY_LEN];
         let our_key = [0x44u8; PKC_CANON_PUBLIC_KEY_LEN];
         let signature = [0x55u8; PKC_SIGNATURE_LEN];
@@ -181,6 +190,7 @@ mod c01 {
             verifies: Cell::new(0),
             tbs_as_expected: Cell::new(false),
             signature_as_given: Cell::new(false),
+            skip_tbs: true,
         };
 
         let mut case = CaseP::<MockCrypto>::new();
@@ -246,6 +256,7 @@ mod c01 {
             verifies: Cell::new(0),
             tbs_as_expected: Cell::new(false),
             signature_as_given: Cell::new(false),
+            skip_tbs: false,
         };
 
         let mut case = CaseP::<MockCrypto>::new();
